@@ -11,6 +11,7 @@ from .registry import replayer, run_native
 SCENARIOS = [
     (r'EventBus\.dispatch/ensures:(never_own_parent|parent_|no_parent|explicit_parent)', 'rp_dispatch_own_parent.py'),
     (r'EventBus\.dispatch/ensures:(child_once|only_that_handlers_children|children_only)', 'rp_dispatch_child_twice.py'),
+    (r'EventBus\.dispatch/ensures:(child_once|only_that_handlers_children|children_only|path_|same_object)', 'rp_dispatch_family.py'),
     (r'EventBus\.dispatch/(raises:.*:(children_unchanged|history_unchanged|queue_unchanged)|ensures:enqueued)', 'rp_dispatch_reject_children.py'),
     (r'EventBus\._run_loop/callsite:step/requires:root_context|ReentrantLock\.|EventBus\.step/exit:lock_released', 'rp_lock_inherited.py'),
     (r'EventBus\._get_next_event/raises:cancel_not_swallowed|EventBus\._run_loop/callsite:step/requires:not_after_cancel', 'rp_exit_with_running_bus.py'),
@@ -27,6 +28,7 @@ SCENARIOS = [
     (r'__await__\.wait/ensures:complete_at_return_inside_handlers', 'rp_await_gives_up.py'),
     (r'__await__\.wait/callsite:get_nowait/requires', 'rp_fifo_inversion.py'),
     (r'BaseEvent\.event_bus/ensures', 'rp_event_bus_after_forward.py'),
+    (r'BaseEvent\.(event_are_all_children_complete|event_mark_complete_if_all_handlers_completed)/', 'rp_completion_descendants.py'),
     (r'event_results_by_handler_name/safety:dictcomp_keys_distinct', 'rp_by_handler_name_duplicates.py'),
     (r'BaseEvent\.(event_results_filtered|event_results_by_handler_id|event_results_list|event_result)/(ensures:|raises:requested_raise)', 'rp_accessor_family.py'),
     (r'process_event/ensures:completion_propagated', 'rp_evicted_parent_never_completes.py'),
